@@ -24,13 +24,13 @@ JudgeRead(e) ==
            want == IF e.ad = <<>> THEN main ELSE WithAddOn(main, e.gap, AddOnRuns(e.ad, e.ap))
        IN IF e.runs # want THEN << <<"reject", "generated symbol is not the spec's symbol for its characters">> >>
           ELSE IF e.ad = <<>> THEN
-                 LET v == ReadVerdict(e.sym, e.runs, e.err, e.text, e.orient) IN
+                 LET v == ReadVerdict(ReaderFor(e.sym, e.rd), e.runs, e.err, e.text, e.orient) IN
                  IF v = "ok" THEN (IF e.err = 0 /\ e.ext # <<>> THEN << <<"reject", "add-on reported where there is none">> >> ELSE <<>>)
                  ELSE IF v = "tolerated" THEN << <<"tolerated", "tolerant reading of the reversed row">> >>
                  ELSE << <<"reject", v>> >>
           ELSE \* valid main symbol followed by an add-on
                LET m == SubSeq(e.runs, 1, MainRuns(e.sym))
-                   v == ReadVerdict(e.sym, m, e.err, e.text, e.orient)
+                   v == ReadVerdict(ReaderFor(e.sym, e.rd), m, e.err, e.text, e.orient)
                    a == AddOnVerdict(e.runs, MainRuns(e.sym) + 2, Len(e.ad), e.ext)
                IN (IF v = "ok" THEN <<>> ELSE << <<"reject", v>> >>) \o (IF a = "ok" \/ e.err = 1 THEN <<>> ELSE << <<"reject", a>> >>)
 
